@@ -311,11 +311,25 @@ class Machine:
                     argcomp.add(p)
         self.ARGCOMP = argcomp
         self.COMPOSERS = {p for p in self.COMPOSERS if p not in argcomp and not (set(F.reachable_from([p])) & argcomp)}
+        # dispatchers: state-machine methods that are not handlers themselves but offer the line to several handlers (the handler chain
+        # moved out of the loop body into a method): handler-level rules apply to the handlers they call
+        def _is_handler_sig(q):
+            m_ = self.BODIES[q]['mir']
+            return m_['arg_count'] == 1 and 'StateMachine' in m_['locals'][1] and m_['locals'][0].startswith('std::result::Result<bool')
+        self.DISPATCHERS = set()
+        for p, b_ in self.BODIES.items():
+            m_ = b_['mir']
+            if not (m_['arg_count'] >= 1 and 'StateMachine' in m_['locals'][1]) or _is_handler_sig(p) or b_['kind'] == 'Closure':
+                continue
+            hs = {callee_of(c) for _, c in F.calls(p) if callee_of(c) in self.BODIES and _is_handler_sig(callee_of(c))}
+            if len(hs) >= 3:
+                self.DISPATCHERS.add(p)
         # entry
         cons = [p for p, b in self.BODIES.items()
                 if b['kind'] == 'AssocFn' and b['mir']['arg_count'] == 2 and 'StateMachine' in b['mir']['locals'][1]
                 and 'ByteLines' in b['mir']['locals'][2]]
         self.consume = cons[0] if len(cons) == 1 else None
+        self.DISPATCHERS.discard(self.consume)
         # literal universe for line classes
         self.PATTERN_FNS = set()
         for p, b in self.BODIES.items():
@@ -827,8 +841,9 @@ class Machine:
         """per-function exit rules (handlers are recognised by signature: fn(&mut StateMachine) -> io::Result<bool>)"""
         b = self.BODIES[path]
         mir = b['mir']
-        if len(self.stack) == 1 and mir['arg_count'] == 2 and mir['locals'][2].replace(' ', '') in ("&[u8]", "&'_[u8]") or \
-                (len(self.stack) == 1 and mir['arg_count'] == 2 and '[u8]' in mir['locals'][2] and 'StateMachine' in mir['locals'][1]):
+        top = len(self.stack) == 1 or (len(self.stack) >= 1 and all(f in self.DISPATCHERS for f in self.stack[1:]))
+        if top and mir['arg_count'] == 2 and mir['locals'][2].replace(' ', '') in ("&[u8]", "&'_[u8]") or \
+                (top and mir['arg_count'] == 2 and '[u8]' in mir['locals'][2] and 'StateMachine' in mir['locals'][1]):
             # the ingest function: its own predicates (truncation guards) do not matter to the handlers
             self.ingest_fn = path
             seen = set()
@@ -841,7 +856,7 @@ class Machine:
                     res.append(r)
             return res
         is_handler = (mir['arg_count'] == 1 and 'StateMachine' in mir['locals'][1] and mir['locals'][0].startswith('std::result::Result<bool'))
-        if not is_handler or len(self.stack) != 1:
+        if not is_handler or not top:
             return outs
         outs2 = []
         for (rv, g, memo) in outs:
